@@ -3,10 +3,13 @@
 set -e
 cd "$(dirname "${BASH_SOURCE[0]}")/engine"
 export CARGO_NET_OFFLINE=true
-for g in gen_data gen_hist gen_pairs; do mkdir -p $g/src; [ -f $g/src/lib.rs ] || : > $g/src/lib.rs; done
+for g in gen_data gen_hist gen_pairs gen_abi; do mkdir -p $g/src; [ -f $g/src/lib.rs ] || : > $g/src/lib.rs; done
 cargo build -q -p vcore --bin typegen
 ./target/debug/typegen data --seed "${VERIF_SEED:-0}" --out gen_data/src --defs 120
 ./target/debug/typegen hist --seed "${VERIF_SEED:-0}" --out gen_hist/src --families 24
 ./target/debug/typegen pairs --seed "${VERIF_SEED:-0}" --out gen_pairs/src --defs 60
+cargo build -q -p abigen --bin abigen
+./target/debug/abigen --seed "${VERIF_SEED:-0}" --out gen_abi/src
 cargo build -q -p checks
+cargo build -q -p checks_abi
 echo "setup ok"
